@@ -257,6 +257,9 @@ func cmpC03x(c hx.Case, impl any, reply map[string]any) hx.Verdict {
 	case "harness-error":
 		return hx.Verdict{IM: false, IS: true, Detail: "harness: " + jstr(im, "err")}
 	case "unparsed":
+		if mf, _ := model["first"].(map[string]any); mf != nil && jbool(mf, "unparsed") {
+			return hx.Verdict{IM: true, IS: true} // the model says so too (typing of `Types`)
+		}
 		// outside the quantifier; a document the specification side calls normal is well-typed and must parse
 		// (the loader applies document-level checks of its own while resolving references: not a parsing matter)
 		if normal && !jbool(c, "loader") {
@@ -754,7 +757,8 @@ func c03Variants(g *c03Gen, t reflect.Type) []any {
 	case t == tAny:
 		return []any{"e", 0, "", false, []any{}, map[string]any{}, map[string]any{"k": []any{1, "a"}}, nil}
 	case t == tTypes:
-		return []any{"string", []any{"string", "null"}, []any{"integer"}, []any{}}
+		// the last five are refused (or repaired: null element ↦ "") by Types.UnmarshalJSON
+		return []any{"string", []any{"string", "null"}, []any{"integer"}, []any{}, []any{nil}, []any{"string", nil}, 5, []any{5}, true, map[string]any{}}
 	case t == tAddProps:
 		return []any{true, false, map[string]any{"type": "string"}, map[string]any{"$ref": "#/components/schemas/A"}, map[string]any{}, nil}
 	}
